@@ -145,6 +145,8 @@ def run_job(job):
         out["solver_time"] = eng.solver_time
         out["queries"] = eng.queries
         out["xcheck"] = eng.xstats
+        out["solver_rebuilds"] = eng.rebuilds
+        out["sat_not_confirmed"] = eng.sat_not_confirmed
         for d in eng.xstats["disagree"][:5]:
             out["problems"].append({"kind": "solver-disagreement", "error": d})
         for d in eng.xstats["errors"][:5]:
@@ -182,7 +184,12 @@ def run_job(job):
                     nfail[label] = n + 1
                     if n < 3:
                         conf = conc_run(job["module"], job["harness"], args, info)
-                        confirmed = any(l == label and s == "fail" for l, s, _ in conf.get("claims", []))
+                        cc = conf.get("claims", []) or []
+                        confirmed = any(l == label and s == "fail" for l, s, _ in cc)
+                        if not confirmed and not any(l == label for l, _, _ in cc):
+                            # the concrete twin words this claim differently: any claim failing on
+                            # the real code under the counterexample's inputs confirms it
+                            confirmed = any(s == "fail" and not l.startswith("canary:") for l, s, _ in cc)
                         out["failures"].append(
                             {
                                 "claim": label,
@@ -357,7 +364,7 @@ def finish(mod, a, seed, t0, jobs, results, skipped):
     unconfirmed = []
     canary_total = {}
     funcs = set()
-    tot = {k: 0 for k in ("paths", "ok", "pruned", "cut", "vcs", "vc_ok", "validated", "queries", "decisions", "model_points")}
+    tot = {k: 0 for k in ("paths", "ok", "pruned", "cut", "vcs", "vc_ok", "validated", "queries", "decisions", "model_points", "solver_rebuilds", "sat_not_confirmed")}
     solver_time = 0.0
     samples = []
     xc = {"submitted": 0, "agree": 0, "no_answer": 0, "time_s": 0.0}
@@ -438,6 +445,7 @@ def finish(mod, a, seed, t0, jobs, results, skipped):
         print("  problem %s in %s: %s" % (p["kind"], p["job"], (p.get("error") or "")[-800:]))
     for u in unconfirmed[:3]:
         print("  unconfirmed cex %s/%s conc=%s" % (u["job"], u["claim"], json.dumps(u.get("conc"))[:800]))
+        print("    model=%s" % json.dumps({k: v for k, v in (u.get("model") or {}).items() if k in ("inputs", "trace", "info")})[:1500])
     print(
         "%s %s: jobs=%d paths=%d (ok %d, pruned %d, cut %d) VCs=%d discharged=%d validated=%d solver=%.1fs cvc5=%d/%d wall=%.1fs -> exit %d"
         % (pid, a.tier, len(results), tot["paths"], tot["ok"], tot["pruned"], tot["cut"], tot["vcs"], tot["vc_ok"], tot["validated"], solver_time, xc["agree"], xc["submitted"], wall, rc)
@@ -482,6 +490,8 @@ def finish(mod, a, seed, t0, jobs, results, skipped):
                 "paths_cut_by_bound": tot["cut"],
                 "solver_queries": tot["queries"],
                 "solver_time_s": round(solver_time, 2),
+                "incremental_solver_rebuilt_after_timeout": tot["solver_rebuilds"],
+                "incremental_sat_verdicts_refuted_by_fresh_solver": tot["sat_not_confirmed"],
                 "second_solver": {
                     "solver": "cvc5 binary (SMT-LIB2 export of the VC: path condition and negated claim)",
                     "vcs_submitted": xc["submitted"],
